@@ -224,6 +224,14 @@ type FuncSpec struct {
 	// the variable>)`, and a call `v, err := f(..)` binds the variable again (`| (.ok v, client) => ..`). Default "".
 	CaptureOut  string
 	CaptureType string // Lean type of the captured variable (the lambda's result type is spelled out: `(<result> × CaptureType)`)
+	// ---- (C02, round 4) constructors that wire part of their arguments into an object; both default-off
+	// SkipFields: fields of the object under construction that the model type does not have (`o.Handler = CreateRouter(o, ..)`,
+	// `o.decoder = schema.NewDecoder()`): an assignment `x.F = e` with F in this list is left out (the spec lists them one by one: a
+	// write to any OTHER field the model type lacks still breaks the build).
+	// OutCallInit: with LoopStyle "ctl" / "state", `if err := f(o); err != nil {..}` whose callee is a LocalOut entry with Keep (f writes
+	// through its pointer argument o and reports an error) counts as an assignment to o when the loop's state is collected.
+	SkipFields  []string
+	OutCallInit bool
 }
 
 // StructLit: `&pkg.T{K: V, ...}` becomes `({ K := V, ... } : Lean)`, restricted to the fields in Keep.
@@ -1951,6 +1959,15 @@ func (t *tr) block(stmts []ast.Stmt, k cont) string {
 			}
 		}
 		if len(x.Lhs) == 1 && len(x.Rhs) == 1 {
+			if sel, ok := x.Lhs[0].(*ast.SelectorExpr); ok && len(t.spec.SkipFields) > 0 && x.Tok == token.ASSIGN {
+				if _, isID := sel.X.(*ast.Ident); isID {
+					for _, f := range t.spec.SkipFields {
+						if f == sel.Sel.Name {
+							return rest() // a field the model type does not have (FuncSpec.SkipFields)
+						}
+					}
+				}
+			}
 			// v.F = e   ->   let v := { v with F := e }
 			if sel, ok := x.Lhs[0].(*ast.SelectorExpr); ok && (t.spec.LetIf || (t.spec.PlainUpdate && x.Tok == token.ASSIGN)) {
 				if id, ok := sel.X.(*ast.Ident); ok {
@@ -2820,6 +2837,17 @@ func (t *tr) assignedOuter(body *ast.BlockStmt) []string {
 		as, ok := n.(*ast.AssignStmt)
 		if !ok {
 			return true
+		}
+		if t.spec.OutCallInit && len(as.Rhs) == 1 {
+			if c, isCall := as.Rhs[0].(*ast.CallExpr); isCall {
+				if op, found := t.lookupOutParam(exprString(c.Fun)); found && op.Keep && op.Index < len(c.Args) {
+					name := strings.TrimPrefix(exprString(c.Args[op.Index]), "&")
+					if t.declared[name] && !local[name] && !seen[name] {
+						seen[name] = true
+						out = append(out, name)
+					}
+				}
+			}
 		}
 		for _, l := range as.Lhs {
 			name := ""
